@@ -123,6 +123,35 @@ theorem wheel_wait_insert_le (u : Option Nat) (s : Bool) (w : Verif.Wheel.Wheel)
     cases u <;> cases s <;>
       simp [waitFromWheel, hn, hd', waitFor, effTimeout, withSynthetic, nextTimeout, untilDeadline] at h ⊢ <;> omega
 
+/-- cancelling an arming (remove, disable, re-arm, Drop) never shortens the wait -/
+theorem wheel_wait_cancel_ge (u : Option Nat) (s : Bool) (w : Verif.Wheel.Wheel) (now : Nat) (c : Nat)
+    (wt' : Nat) (h : waitFromWheel u s (Verif.Wheel.cancel w c) now = some wt') :
+    ∃ wt, waitFromWheel u s w now = some wt ∧ wt ≤ wt' := by
+  cases hn : Verif.Wheel.nextDeadline (Verif.Wheel.cancel w c) with
+  | none =>
+    cases hw : Verif.Wheel.nextDeadline w with
+    | none => exact ⟨wt', by simpa [waitFromWheel, hn, hw] using h, Nat.le_refl _⟩
+    | some d =>
+      cases u <;> cases s <;>
+        simp [waitFromWheel, hn, hw, waitFor, effTimeout, withSynthetic, nextTimeout, untilDeadline] at h ⊢ <;> omega
+  | some d' =>
+    obtain ⟨d, hd, hle⟩ := Verif.Inv.Wheel.nextDeadline_cancel_ge w c d' hn
+    have : d.toNat ≤ d'.toNat := Int.toNat_le_toNat hle
+    cases u <;> cases s <;>
+      simp [waitFromWheel, hn, hd, waitFor, effTimeout, withSynthetic, nextTimeout, untilDeadline] at h ⊢ <;> omega
+
+/-- no spinning after a poll: once `Poll::poll` has popped what was due at `now`, a wait computed at that instant is
+zero only if the user asked for zero (or a synthetic event forces it) — never because of a timer left in the heap -/
+theorem wheel_wait_after_poll_zero_only_on_request (u : Option Nat) (w : Verif.Wheel.Wheel) (now : Nat)
+    (h : waitFromWheel u false (Verif.Wheel.popExpired w (now : Int) w.heap.length).2 now = some 0) : u = some 0 := by
+  cases hn : Verif.Wheel.nextDeadline (Verif.Wheel.popExpired w (now : Int) w.heap.length).2 with
+  | none =>
+    cases u <;> simp [waitFromWheel, hn, waitFor, effTimeout, withSynthetic, nextTimeout] at h ⊢
+    exact h
+  | some d =>
+    have hlt := Verif.Inv.Wheel.nextDeadline_after_poll w now d hn
+    cases u <;> simp [waitFromWheel, hn, waitFor, effTimeout, withSynthetic, nextTimeout, untilDeadline] at h ⊢ <;> omega
+
 /-- non-vacuity: a heap with three armings (not in deadline order), one of them already past -/
 example : waitFromWheel (some 50) false { heap := [⟨130, ⟨0, 0, 0⟩, 0⟩, ⟨110, ⟨1, 0, 0⟩, 1⟩, ⟨400, ⟨2, 0, 0⟩, 2⟩], counter := 3 } 100 = some 10 ∧
     waitFromWheel none false { heap := [⟨130, ⟨0, 0, 0⟩, 0⟩, ⟨-5, ⟨1, 0, 0⟩, 1⟩], counter := 2 } 100 = some 0 ∧
